@@ -10,6 +10,10 @@ import Model.Util
     `pT`   = `actor_target(next_obs, q=False)`      (A × N target distributions; clamped soft-max,
                                                      so they need not sum to one),
     `logp` = `actor(obs, q=False, log=True)`        (A × N opaque log-probabilities).
+
+  Namespace `Duel` (end of the file's model part) models where those outputs come from:
+  `DuelingDistributionalMLP.forward` (agilerl/networks/custom_modules.py) per batch row, given the outputs
+  of the value net (N logits) and of the advantage net (A·N logits); `exp` / `log` are parameters (`Duel.Fn`).
 -/
 namespace C51
 
@@ -184,6 +188,61 @@ def learn (h : Hyper) (per : Bool) (one : List Sample) (nst : Option (List Sampl
 
 end C51
 
+/-! ### the dueling distributional head (`DuelingDistributionalMLP.forward`), one batch row -/
+namespace Duel
+
+/-- the elementary functions (parameters, never defaults); `lit` embeds the literals of the source -/
+structure Fn (α : Type) where
+  lit : Rat → α
+  exp : α → α
+  log : α → α
+
+variable {α : Type} [Add α] [Sub α] [Mul α] [Div α] [Zero α] [Max α]
+
+/-- `t.view(B, A, N)` of a `(B, A·N)` tensor, one batch row: row `a` = entries `[a·N, (a+1)·N)` -/
+def rows (A N : Nat) (flat : List α) : List (List α) :=
+  (List.range A).map fun a => (flat.drop (a * N)).take N
+
+/-- `advantage.mean(1, keepdim=True)`: per atom, the mean over the actions -/
+def colMean (F : Fn α) (A N : Nat) (adv : List (List α)) : List α :=
+  (List.range N).map fun j => (adv.map fun row => row.getD j 0).sum / F.lit (A : Rat)
+
+/-- `value + advantage - advantage.mean(1, keepdim=True)`: the logits of action `a`, atom `j` are
+    `v_j + adv_{a,j} - mean_a adv_{·,j}` -/
+def combine (F : Fn α) (A N : Nat) (value advFlat : List α) : List (List α) :=
+  (rows A N advFlat).map fun row =>
+    List.zipWith (· - ·) (List.zipWith (· + ·) value row) (colMean F A N (rows A N advFlat))
+
+/-- `F.softmax(·, dim=-1)` on one row of logits -/
+def softmax (F : Fn α) (row : List α) : List α := row.map fun x => F.exp x / (row.map F.exp).sum
+
+/-- `F.log_softmax(·, dim=-1)` on one row of logits -/
+def logSoftmax (F : Fn α) (row : List α) : List α := row.map fun x => x - F.log (row.map F.exp).sum
+
+/-- the floor of `.clamp(min=1e-3)` -/
+def floorLit : Rat := 1 / 1000
+
+/-- `forward(q=False)`: soft-max over the atoms of every action, clamped from below -/
+def dist (F : Fn α) (A N : Nat) (value advFlat : List α) : List (List α) :=
+  (combine F A N value advFlat).map fun row => (softmax F row).map fun p => max p (F.lit floorLit)
+
+/-- `torch.sum(x * self.support, dim=2)` on one action -/
+def expect (support p : List α) : α := (List.zipWith (· * ·) p support).sum
+
+/-- what `forward` returns: a vector of q-values or a matrix (one distribution per action) -/
+inductive Out (α : Type) where
+  | vec (v : List α)
+  | mat (m : List (List α))
+
+/-- `DuelingDistributionalMLP.forward(x, q, log)` given the outputs of the value and the advantage
+    net: `log` wins over `q` and returns the log of the UNclamped soft-max -/
+def forward (F : Fn α) (A N : Nat) (support value advFlat : List α) (q log : Bool) : Out α :=
+  if log then Out.mat ((combine F A N value advFlat).map (logSoftmax F))
+  else if q then Out.vec ((dist F A N value advFlat).map (expect support))
+  else Out.mat (dist F A N value advFlat)
+
+end Duel
+
 /-! ### line protocol -/
 namespace C51
 open Util
@@ -194,6 +253,21 @@ structure IOState where
   ready : Bool := false
   one   : List Sample := []
   nst   : List Sample := []
+  -- the dueling head (`duel …` ops): sizes, support, outputs of the value / advantage net, and the tables
+  -- of `exp` (combined logit ↦ value) and `log` (row sum ↦ value) the harness supplies
+  dA      : Nat := 0
+  dN      : Nat := 0
+  dSup    : List Rat := []
+  dVal    : List Rat := []
+  dAdv    : List Rat := []
+  dExp    : List (Rat × Rat) := []
+  dLog    : List (Rat × Rat) := []
+
+/-- the elementary functions of the driver: literals exact, `exp` / `log` tabulated by the harness -/
+def IOState.fn (s : IOState) : Duel.Fn Rat :=
+  { lit := fun q => q, exp := fun x => (s.dExp.lookup x).getD 0, log := fun z => (s.dLog.lookup z).getD 0 }
+
+def IOState.comb (s : IOState) : List (List Rat) := Duel.combine s.fn s.dA s.dN s.dVal s.dAdv
 
 def showRows (rows : List (List Rat)) : String := " | ".intercalate (rows.map showRats)
 
@@ -296,6 +370,44 @@ def step (s : IOState) : List String → IOState × String
       if nOn && s.nst.length ≠ s.one.length then (s, "reject") else
       let o := learn s.hyper per s.one (if nOn then some s.nst else none)
       (s, s!"el {showRats o.elementwise} ; loss {showOptRat o.loss} ; idxs {showOptNats o.idxs} ; prio {showOptRats o.priorities}")
+    | _, _ => (s, "bad-op")
+  /- dueling head:
+       duel new A N <support (N)> <value (N)> <advantage (A·N)>   -> ok | reject (sizes: `view` raises)
+       duel comb                                                 -> the A×N combined logits
+       duel exp <e (A·N)>     exp of the combined logits, row-major -> the A row sums Σ_j e
+       duel logz <l (A)>      log of those row sums                -> ok
+       duel fwd <q> <log>                                         -> what `forward(q, log)` returns -/
+  | "duel" :: "new" :: a :: n :: ws =>
+    match parseNat? a, parseNat? n, parseRats? ws with
+    | some a, some n, some xs =>
+      if a = 0 ∨ n = 0 ∨ xs.length ≠ n + n + a * n then ({ s with dA := 0, dN := 0 }, "reject") else
+      ({ s with dA := a, dN := n, dSup := xs.take n, dVal := (xs.drop n).take n, dAdv := xs.drop (n + n),
+                dExp := [], dLog := [] }, "ok")
+    | _, _, _ => (s, "bad-op")
+  | ["duel", "comb"] =>
+    if s.dA = 0 then (s, "bad-op") else (s, showRows s.comb)
+  | "duel" :: "exp" :: ws =>
+    match parseRats? ws with
+    | some es =>
+      if s.dA = 0 then (s, "bad-op") else
+      if es.length ≠ s.dA * s.dN then (s, "reject") else
+      let s' := { s with dExp := s.comb.flatten.zip es, dLog := [] }
+      (s', showRats (s'.comb.map fun row => (row.map s'.fn.exp).sum))
+    | none => (s, "bad-op")
+  | "duel" :: "logz" :: ws =>
+    match parseRats? ws with
+    | some ls =>
+      if s.dA = 0 ∨ s.dExp.isEmpty then (s, "bad-op") else
+      if ls.length ≠ s.dA then (s, "reject") else
+      ({ s with dLog := (s.comb.map fun row => (row.map s.fn.exp).sum).zip ls }, "ok")
+    | none => (s, "bad-op")
+  | ["duel", "fwd", q, lg] =>
+    match parseBool? q, parseBool? lg with
+    | some q, some lg =>
+      if s.dA = 0 ∨ s.dExp.isEmpty ∨ (lg ∧ s.dLog.isEmpty) then (s, "bad-op") else
+      match Duel.forward s.fn s.dA s.dN s.dSup s.dVal s.dAdv q lg with
+      | .vec v => (s, showRats v)
+      | .mat m => (s, showRows m)
     | _, _ => (s, "bad-op")
   | _ => (s, "bad-op")
 
